@@ -58,7 +58,9 @@ Definition premises (N : cnf) (A : list lit) (s : state) : cnf :=
 
 Definition is_nil {X} (l : list X) : bool := match l with [] => true | _ => false end.
 
-Definition step (N : cnf) (A : list lit) (limit : Z) (s : state) (e : event) : option state :=
+(* chk = true: the full machine (C02).  chk = false: the RUP guards of learned clauses and of the
+   INFEASIBLE / enumeration-complete verdicts are not evaluated (C01 needs none of them). *)
+Definition step (chk : bool) (N : cnf) (A : list lit) (limit : Z) (s : state) (e : event) : option state :=
   match verdict s with
   | Some _ => None
   | None =>
@@ -68,7 +70,7 @@ Definition step (N : cnf) (A : list lit) (limit : Z) (s : state) (e : event) : o
            && zlist_eqb un (unit_lits N) && pure_okb N A pu
         then Some (mkState true pu [] [] false None) else None
     | ELearn c false =>
-        if inited s && negb (pending s) && rup (premises N A s) c
+        if inited s && negb (pending s) && (if chk then rup (premises N A s) c else true)
         then Some (mkState true (pures s) ((c, false) :: db s) (sols s) false None) else None
     | ELearn c true =>
         match pending s, sols s with
@@ -86,38 +88,38 @@ Definition step (N : cnf) (A : list lit) (limit : Z) (s : state) (e : event) : o
           if limit <=? Z.of_nat (length (sols s))
           then Some (mkState (inited s) (pures s) (db s) (sols s) (pending s) (Some RLimit)) else None
         else
-          if inited s && negb (is_nil (sols s)) && rup (premises N A s) []
+          if inited s && negb (is_nil (sols s)) && (if chk then rup (premises N A s) [] else true)
           then Some (mkState (inited s) (pures s) (db s) (sols s) false (Some RExhausted)) else None
     | EVerdict INFEASIBLE =>
-        if negb (pending s) && is_nil (sols s) && rup (premises N A s) []
+        if negb (pending s) && is_nil (sols s) && (if chk then rup (premises N A s) [] else true)
         then Some (mkState (inited s) (pures s) (db s) (sols s) false (Some RInfeasible)) else None
     | EVerdict MAX_ITER =>
         Some (mkState (inited s) (pures s) (db s) (sols s) (pending s) (Some RMaxIter))
     end
   end.
 
-Fixpoint run_from (N : cnf) (A : list lit) (limit : Z) (s : state) (evs : list event) : option state :=
+Fixpoint run_from (chk : bool) (N : cnf) (A : list lit) (limit : Z) (s : state) (evs : list event) : option state :=
   match evs with
   | [] => Some s
-  | e :: evs' => match step N A limit s e with
-                 | Some s' => run_from N A limit s' evs'
+  | e :: evs' => match step chk N A limit s e with
+                 | Some s' => run_from chk N A limit s' evs'
                  | None => None
                  end
   end.
 
-Definition run (N : cnf) (A : list lit) (limit : Z) (evs : list event) : option state :=
-  run_from N A limit init_state evs.
+Definition run (chk : bool) (N : cnf) (A : list lit) (limit : Z) (evs : list event) : option state :=
+  run_from chk N A limit init_state evs.
 
 (* index of the first rejected event, None if the whole trace is accepted *)
-Fixpoint first_reject_from (N : cnf) (A : list lit) (limit : Z) (s : state) (evs : list event) (i : nat) : option nat :=
+Fixpoint first_reject_from (chk : bool) (N : cnf) (A : list lit) (limit : Z) (s : state) (evs : list event) (i : nat) : option nat :=
   match evs with
   | [] => None
-  | e :: evs' => match step N A limit s e with
-                 | Some s' => first_reject_from N A limit s' evs' (S i)
+  | e :: evs' => match step chk N A limit s e with
+                 | Some s' => first_reject_from chk N A limit s' evs' (S i)
                  | None => Some i
                  end
   end.
-Definition first_reject N A limit evs := first_reject_from N A limit init_state evs 0.
+Definition first_reject chk N A limit evs := first_reject_from chk N A limit init_state evs 0.
 
 (* ---- the Result the code hands back, as a function of the accepted trace ---- *)
 Record result := mkResult {
@@ -173,8 +175,8 @@ Definition result_eqb (a b : result) : bool :=
   && (r_objective a =? r_objective b) && opt_eqb models_eqb (r_solutions a) (r_solutions b).
 
 (* the correspondence check: the trace is accepted and the machine's result is the code's result *)
-Definition trace_ok (N : cnf) (A : list lit) (limit : Z) (evs : list event) (impl : result) : bool :=
-  match run N A limit evs with
+Definition trace_ok (chk : bool) (N : cnf) (A : list lit) (limit : Z) (evs : list event) (impl : result) : bool :=
+  match run chk N A limit evs with
   | Some s => opt_eqb result_eqb (result_of limit s) (Some impl)
   | None => false
   end.
